@@ -77,7 +77,17 @@ impl<'a> GenF<'a> {
                     F::If(t, e)
                 }
                 5 | 6 => F::While(self.body(nest + 1, max_nest, avail_procs)),
-                7 => F::Repeat(self.rng.range(0, 4) as u32 + if self.rng.chance(1, 10) { 5 } else { 0 }, self.body(nest + 1, max_nest, avail_procs)),
+                7 => {
+                    // mostly small counts; sometimes counts around powers of two (the assembler combines
+                    // the copies into a balanced tree of JOIN blocks) with a leaf body
+                    if self.rng.chance(1, 6) {
+                        let n = *self.rng.pick(&[6u32, 7, 8, 9, 15, 16, 17, 31, 32, 33, 63, 64, 65, 100, 255, 256, 257]);
+                        let b = self.body(max_nest, max_nest, avail_procs);
+                        F::Repeat(n, b)
+                    } else {
+                        F::Repeat(self.rng.range(0, 4) as u32 + if self.rng.chance(1, 10) { 5 } else { 0 }, self.body(nest + 1, max_nest, avail_procs))
+                    }
+                }
                 _ => {
                     if avail_procs > 0 {
                         F::Exec(self.rng.usize(avail_procs))
